@@ -14,6 +14,10 @@ type Fh struct {
 }
 
 func MakeFh(fh3 nfstypes.Nfs_fh3) Fh {
+	if uint64(len(fh3.Data)) < 16 {
+		// too short to be one of our handles; inode 0 is never live
+		return Fh{Ino: common.NULLINUM, Gen: 0}
+	}
 	dec := marshal.NewDec(fh3.Data)
 	i := dec.GetInt()
 	g := dec.GetInt()
